@@ -336,7 +336,9 @@ pub struct Rt {
 
 /// `empty_as_braces: false` is documented as not telling empty collections from null.
 pub fn has_empty_collection(ty: &Ty, v: &TVal) -> bool {
-    any_node(ty, v, &|_, x| matches!(x, TVal::Seq(xs) if xs.is_empty()) || matches!(x, TVal::Map(ps) if ps.is_empty()))
+    any_node(ty, v, &|_, x| {
+        matches!(x, TVal::Seq(xs) if xs.is_empty()) || matches!(x, TVal::Map(ps) if ps.is_empty()) || matches!(x, TVal::Bytes(b) if b.is_empty())
+    })
 }
 
 /// The whole C13 oracle for one case.
@@ -1656,4 +1658,10 @@ impl<C: serde::ser::SerializeStructVariant> serde::ser::SerializeStructVariant f
     fn end(self) -> Result<C::Ok, C::Error> {
         self.0.end()
     }
+}
+
+/// `shape_trigger`, or the kind of the root when no trigger applies (for signatures that name a shape).
+pub fn shape_trigger_or_kind(ty: &Ty, v: &TVal) -> String {
+    let t = shape_trigger(ty, v);
+    if t.starts_with("other:") { kind(ty, v).to_string() } else { t }
 }
